@@ -154,7 +154,9 @@ def call_builtin(ex, name, self_v, args, kwargs, p, node, fr):
     if name in ('all', 'any'):
         v = args[0]
         items = v.xs if isinstance(v, VGen) else ex.items_of(v, p)
-        if isinstance(v, VGen) and v.xs is None: return [(p, VBool(fresh(B, name)))]
+        if isinstance(v, VGen) and v.xs is None:
+            if name == 'all' and getattr(v, 'allin', None): return [(p, VBool(S.all_chars_in(*v.allin)))]
+            return [(p, VBool(fresh(B, name)))]
         if items is None and isinstance(v, VRef) and v.cls == 'list': return [(p, VBool(fresh(B, name)))]
         if items is None:
             if isinstance(v, VUnk): return [(p, VBool(fresh(B, name))), raised('Exception?')]
